@@ -75,6 +75,10 @@ def dm_steps(n, steps, n_ops, slm, with_init):
                 env.check_eq(c.v, rec.calls[k - 1].out, f"step {k} starts from the state returned by step {k-1}")
             env.check(c.kw.get("is_hermitian") is False, "Arnoldi (general) exponentiation requested")
         env.check_eq(impl.state.data, rec.calls[-1].out, "final state is the one returned by the last step")
+        if with_init:
+            # the exponentiation routine destroys its input tensor (it normalises it in place): a second emulation
+            # with the same config must still start from the state the user configured
+            env.check_eq(init.data, init_before, "the configured initial density matrix is not modified by the run")
 
     return fn
 
